@@ -182,6 +182,204 @@ class LiftStrandedChunkToChunk(Case):
         return obs_loc(r)[:3]
 
 
+class FromChunkRelativeLocation(Case):
+    """The alternative constructors X.from_chunk_relative_location(loc): an interval described by its CHUNK-relative
+    location (chunk of either strand) is the interval whose chromosome location is the lift of that location - same
+    blocks, and the CHROMOSOME strand (on a reverse-strand chunk the chunk-relative strand is the flipped one); its own
+    chunk-relative location is the location it was built from."""
+    props = ("C04", "C07", "C06", "C14", "C11")
+
+    def __init__(self, kind, n):
+        self.kind, self.n = kind, n
+        cls = {"feature": "gene.feature.FeatureInterval", "transcript": "gene.transcript.TranscriptInterval",
+               "cds": "gene.cds.CDSInterval"}[kind]
+        self.cls = cls
+        self.func = cls + ".from_chunk_relative_location"
+        self.module = cls.rsplit(".", 1)[0]
+        cname = cls.split(".")[-1]
+        self.name = f"{cname}.from_chunk_relative_location[{n} block(s), chunk of either strand]"
+        extra = ", cds_frames=frames" if kind == "cds" else ""
+        self.call = (f"(lambda y: (y.chromosome_location, y.strand, y.chunk_relative_location))"
+                     f"({cname}.from_chunk_relative_location(x.chunk_relative_location{extra}))")
+        self.ensures = {
+            "chromosome-blocks-are-the-lift": lambda i, r: And(
+                len(_bl(r[0])) == len(i.blocks), *[And(a[0] == b[0], a[1] == b[1]) for a, b in zip(_bl(r[0]), i.blocks)]),
+            "chromosome-strand": lambda i, r: _same_strand_val(r[1], i.strand),
+            "chunk-relative-location-is-the-argument": lambda i, r: And(
+                len(_bl(r[2])) == len(_bl(i.arg)), *[And(a[0] == b[0], a[1] == b[1]) for a, b in zip(_bl(r[2]), _bl(i.arg))],
+                _same_strand_val(r[2].strand, i.arg.strand)),
+        }
+
+    def inputs(self, S):
+        from .gene_common import block_lists, strand_of, FRAME
+        # blocks separated by at least one base: the lift to the chromosome goes through a union that fuses ADJACENT
+        # blocks (same bases, fewer blocks), which the properties do not forbid
+        starts, ends = block_lists(S, "x", self.n, allow_adjacent=False)
+        strand = strand_of(S, "strand")
+        cp, cs, ce, minus = chunk_parent_stranded(S)
+        S.assume(And(cs <= starts[0], ends[-1] <= ce))
+        zero = S.enum_const(FRAME, "ZERO")
+        if self.kind == "cds":
+            x = S.new(self.cls, starts, ends, strand, [zero] * self.n, parent_or_seq_chunk_parent=cp)
+        else:
+            x = S.new(self.cls, starts, ends, strand, parent_or_seq_chunk_parent=cp)
+        arg = x.chunk_relative_location if S.mode == "native" else S.e.getattr(x, "chunk_relative_location")
+        ns = NS(x=x, strand=strand, blocks=list(zip(starts, ends)), arg=arg, frames=[zero] * self.n)
+        ns.__dict__[self.cls.split(".")[-1]] = S.cls(self.cls)
+        return ns
+
+    def samples(self, rng):
+        from .gene_common import sample_blocks
+        d = sample_blocks(rng, "x", self.n, lo=2, gap=(1, 2, 3))
+        cs = rng.randint(0, d["x_starts"][0])
+        ce = d["x_ends"][-1] + rng.randint(0, 3)
+        d.update(strand=rng.choice(["PLUS", "MINUS"]), chunk_start=cs, chunk_end=ce, chunk_strand=rng.choice(["PLUS", "MINUS"]),
+                 chunk_seq="".join(rng.choice("ACGT") for _ in range(ce - cs)))
+        return d
+
+    def observe(self, r):
+        from .c02_single import obs_loc
+        from pyvc.check import default_observe as o
+        return [obs_loc(r[0])[:3], o(r[1]), obs_loc(r[2])[:3]]
+
+
+def _bl(loc):
+    from .c02_single import blocks_of
+    return blocks_of(loc)
+
+
+def _same_strand_val(a, b):
+    va = enum_value(a) if hasattr(a, "idx") else a.value
+    vb = enum_value(b) if hasattr(b, "idx") else b.value
+    return va == vb
+
+
+class ChunkInsideIntron(Case):
+    """an interval with NO base in the chunk - here a two-block Feature / Transcript / CDS built on a chunk (either
+    strand) that lies inside its intron, or entirely beside it - 'is empty rather than an error' (C07): construction
+    succeeds, the chunk-relative location is the EmptyLocation, and the chromosome-level answers are unchanged."""
+    props = ("C07", "C04", "C19")
+
+    def __init__(self, kind):
+        self.kind = kind
+        cls = {"feature": "gene.feature.FeatureInterval", "transcript": "gene.transcript.TranscriptInterval",
+               "cds": "gene.cds.CDSInterval"}[kind]
+        self.cls = cls
+        self.func = "gene.interval.AbstractInterval.initialize_location"
+        self.module = cls.rsplit(".", 1)[0]
+        self.name = f"{cls.split('.')[-1]}[2 blocks] built on a chunk holding none of its bases: empty, not an error"
+        self.call = "(x.chunk_relative_location, x.chromosome_location, x.start, x.end, x.is_chunk_relative)"
+        self.ensures = {
+            "chunk-relative-location-is-empty": lambda i, r: class_name(r[0]) == "_EmptyLocation",
+            "chromosome-level-answers-unchanged": lambda i, r: And(
+                len(_bl(r[1])) == 2, *[And(a[0] == b[0], a[1] == b[1]) for a, b in zip(_bl(r[1]), i.blocks)],
+                r[2] == i.blocks[0][0], r[3] == i.blocks[1][1]),
+        }
+
+    def inputs(self, S):
+        from .gene_common import block_lists, strand_of, FRAME
+        starts, ends = block_lists(S, "x", 2, allow_adjacent=False)
+        strand = strand_of(S, "strand")
+        cp, cs, ce, minus = chunk_parent_stranded(S)
+        S.assume(cs < ce)
+        # no base of either block on the chunk: inside the intron, or left / right of the whole interval
+        S.assume(And(Not(Max(starts[0], cs) < Min(ends[0], ce)), Not(Max(starts[1], cs) < Min(ends[1], ce))))
+        zero = S.enum_const(FRAME, "ZERO")
+        if self.kind == "cds":
+            x = S.new(self.cls, starts, ends, strand, [zero, zero], parent_or_seq_chunk_parent=cp)
+        else:
+            x = S.new(self.cls, starts, ends, strand, parent_or_seq_chunk_parent=cp)
+        return NS(x=x, blocks=list(zip(starts, ends)))
+
+    def samples(self, rng):
+        a = rng.randint(2, 6)
+        b = a + rng.randint(1, 4)
+        c = b + rng.randint(3, 8)
+        d = c + rng.randint(1, 4)
+        where = rng.choice(["intron", "left", "right"])
+        if where == "intron":
+            cs = rng.randint(b, c - 1)
+            ce = rng.randint(cs + 1, c)
+        elif where == "left":
+            cs = rng.randint(0, a - 1)
+            ce = rng.randint(cs + 1, a)
+        else:
+            cs = d + rng.randint(0, 2)
+            ce = cs + rng.randint(1, 4)
+        return dict(x_starts=[a, c], x_ends=[b, d], strand=rng.choice(["PLUS", "MINUS"]), chunk_start=cs, chunk_end=ce,
+                    chunk_strand=rng.choice(["PLUS", "MINUS"]), chunk_seq="".join(rng.choice("ACGT") for _ in range(ce - cs)))
+
+    def observe(self, r):
+        from .c02_single import obs_loc
+        from pyvc.check import default_observe as o
+        return [obs_loc(r[0])[:1], obs_loc(r[1])[:3], o(r[2]), o(r[3]), o(r[4])]
+
+
+class LiftCompoundToChunk(Case):
+    """a MULTI-block chromosome location (blocks may be adjacent or zero-length) lifted onto a sequence chunk of either
+    strand: exactly the bases inside the chunk, in chunk coordinates (mirrored on a MINUS chunk); EmptyLocation iff no
+    base lies in the chunk; lifting back gives the restriction."""
+    props = ("C04", "C07")
+    func = AI + ".liftover_location_to_seq_chunk_parent"
+    module = "gene.interval"
+    shard_depth = 4
+
+    def __init__(self, n):
+        self.n = n
+        self.tier = "thorough" if n >= 3 else "quick"
+        self.name = f"AbstractInterval.liftover_location_to_seq_chunk_parent[{n} blocks incl. zero-length -> chunk of either strand]"
+        self.call = ("(lambda r: (r, r.lift_over_to_first_ancestor_of_type(SequenceType.CHROMOSOME) "
+                     "if r is not EmptyLocation() else None))"
+                     "(AbstractInterval.liftover_location_to_seq_chunk_parent(loc, chunk))")
+        self.ensures = {
+            "empty-iff-no-base-in-chunk": lambda i, r: Iff(class_name(r[0]) == "_EmptyLocation", Not(_any_in_chunk(i))),
+            "exactly-the-bases-inside-the-chunk": lambda i, r: class_name(r[0]) == "_EmptyLocation" or Iff(
+                _cov(r[0], i.x), Or(*[And(Max(s, i.cs) <= _chrom_of(i, i.x), _chrom_of(i, i.x) < Min(e, i.ce))
+                                      for s, e in zip(i.starts, i.ends)])),
+            "lifting-back-gives-the-restriction": lambda i, r: r[1] is None or Iff(
+                _cov(r[1], i.p), Or(*[And(Max(s, i.cs) <= i.p, i.p < Min(e, i.ce)) for s, e in zip(i.starts, i.ends)])),
+        }
+
+    def inputs(self, S):
+        from .gene_common import block_lists, strand_of
+        starts, ends = block_lists(S, "loc", self.n, nonempty=False)
+        strand = strand_of(S, "strand")
+        loc = S.new(COMPOUND, starts, ends, strand)
+        chunk, cs, ce, minus = chunk_parent_stranded(S)
+        S.assume(cs < ce)
+        return NS(loc=loc, chunk=chunk, starts=starts, ends=ends, cs=cs, ce=ce, minus=minus, x=S.int("x"), p=S.int("p"),
+                  EmptyLocation=S.fn("location.location_impl.EmptyLocation"))
+
+    def samples(self, rng):
+        from .gene_common import sample_blocks
+        d = sample_blocks(rng, "loc", self.n, length=(0, 1, 2, 4), gap=(0, 1, 3))
+        d.update(sample_chunk(rng))
+        if d["chunk_end"] == d["chunk_start"]:
+            d["chunk_end"] += 1
+            d["chunk_seq"] = "A"
+        d.update(strand=rng.choice(["PLUS", "MINUS"]), chunk_strand=rng.choice(["PLUS", "MINUS"]), x=rng.randint(0, 12),
+                 p=rng.randint(0, 20))
+        return d
+
+    def observe(self, r):
+        from .c02_single import obs_loc
+        return [obs_loc(r[0])[:3], obs_loc(r[1])[:3] if r[1] is not None else None]
+
+
+def _any_in_chunk(i):
+    return Or(*[Max(s, i.cs) < Min(e, i.ce) for s, e in zip(i.starts, i.ends)])
+
+
+def _chrom_of(i, x):
+    """chromosome position of chunk position x."""
+    return (i.ce - 1 - x) if i.minus else (i.cs + x)
+
+
+def _cov(loc, q):
+    from .c02_single import covers_pos
+    return covers_pos(loc, q)
+
+
 class LiftRoundTrip(Case):
     """chromosome -> chunk -> chromosome returns exactly the part of the location inside the chunk."""
     props = ("C04", "C07")
@@ -393,5 +591,8 @@ def _single_at(r, start, end):
 
 CASES = [LiftToChunk(), LiftRoundTrip(), LiftChunkToChunk(), LiftNestedToChunk(), LiftToStrandedChunk(),
          LiftStrandedChunkToChunk()]
+CASES += [FromChunkRelativeLocation(k, n) for k in ("feature", "transcript", "cds") for n in (1, 2)]
+CASES += [ChunkInsideIntron(k) for k in ("feature", "transcript", "cds")]
+CASES += [LiftCompoundToChunk(2), LiftCompoundToChunk(3)]
 CASES += [ChildLocationOfParent(n, via) for n in (1, 2) for via in (
     "constructor on a parent that already holds a location", "reverse_strand", "reset_strand", "shift_position")]
